@@ -9,7 +9,8 @@ OUT=${1:-/dev/stdout}
 : > "$OUT"
 for d in /verif/seeded/*/; do
   name=$(basename "$d"); id=${name%%-*}
-  r=$(PATCHRUN_DIR=${PATCHRUN_DIR:-/tmp/vregress} /verif/tools/patchrun.sh "$d/patch.diff" "$id" 2>&1 | tail -1)
+  pf="$d/patch.diff"; [ -f "$d/patch-rebased.diff" ] && pf="$d/patch-rebased.diff"   # rebased onto later /repo fixes
+  r=$(PATCHRUN_DIR=${PATCHRUN_DIR:-/tmp/vregress} /verif/tools/patchrun.sh "$pf" "$id" 2>&1 | tail -1)
   case "$r" in
     *" ALARM "*) echo "$name CAUGHT $(echo "$r" | sed 's/.*failure key=//' | cut -c1-110)" >> "$OUT" ;;
     *" SILENT"*) echo "$name SILENT" >> "$OUT" ;;
